@@ -70,6 +70,10 @@ func (m *AuthResponseMsg) Encode(w io.Writer) error {
 	return err
 }
 
+// maxAuthSignatureLen is the maximum length of the signature of an
+// authentication response message.
+const maxAuthSignatureLen = 1 << 16
+
 // Decode decodes an AuthResponseMsg from an io.Reader.
 // It reads the signature from the reader.
 func (m *AuthResponseMsg) Decode(r io.Reader) (err error) {
@@ -78,6 +82,10 @@ func (m *AuthResponseMsg) Decode(r io.Reader) (err error) {
 	err = binary.Read(r, binary.BigEndian, &signatureLen)
 	if err != nil {
 		return fmt.Errorf("failed to read signature length: %w", err)
+	}
+
+	if signatureLen > maxAuthSignatureLen {
+		return fmt.Errorf("signature too long: %d bytes", signatureLen)
 	}
 
 	// Read the signature bytes
